@@ -171,7 +171,9 @@ static void exec_restart(Plan const& p, Report& rep)
             {
                 rep.fail("C03", "text-not-readable", roundtrip_class(q).empty() ? key : roundtrip_class(q),
                     "checkpoint without results could not be read back or read back differently");
-                return;
+                // what was read differs but is usable: go on, the state threading oracles look at the
+                // first iteration of the restarted run
+                if (!run.reload_usable) return;
             }
             rep.faults["restart-before-first-iteration"]++;
         }
